@@ -148,11 +148,12 @@ class Ctx:
         self.enums = enums      # name -> [members]
         self.fns = fns          # python name -> Fn
         self.consts = consts    # module-level constant name -> (lean expr, type)
+        self.fns_lean = set()   # lean names of translated methods
 
 
 class FnTr:
     def __init__(self, ctx, node, pname, lean_name, param_types, recursive, cache_step=False, self_fields=None,
-                 src="", gen=None, method_fields=None):
+                 src="", gen=None, method_fields=None, oracles=None):
         self.ctx = ctx
         self.node = node
         self.pname = pname
@@ -168,7 +169,13 @@ class FnTr:
         self.vtypes = dict(self.ptypes)
         for f, t in self.self_fields.items():
             self.vtypes["self." + f] = t
+        self.oracles = oracles or {}    # untranslated callees passed as parameters: name -> (param names, result type, lean type)
         self.method_fields = method_fields or []   # a method that changes object fields returns their new values
+        for f2 in self.method_fields:
+            if f2 in ("n", "r"):
+                self.vtypes.setdefault("self." + f2, "Int")
+            elif f2 == "max_n":
+                self.vtypes.setdefault("self." + f2, ("opt", "Int"))
         self.gen = gen or {}    # generator translation: {"online": bool, "passes": bool}
         self.local_fns = {}
         if self.gen:
@@ -313,6 +320,13 @@ class FnTr:
             if bt is not None and not isinstance(bt, str) and bt[0] == "list":
                 return bt[1]
             return None
+        if isinstance(e, ast.Call) and isinstance(e.func, ast.Attribute) and e.func.attr == "count" and len(e.args) == 1:
+            return "Int"
+        if isinstance(e, ast.Call) and isinstance(e.func, ast.Name) and e.func.id == "tuple" and len(e.args) == 1 \
+                and isinstance(e.args[0], ast.GeneratorExp):
+            return ("list", self.etype(e.args[0].elt))
+        if isinstance(e, ast.Call) and isinstance(e.func, ast.Name) and e.func.id in self.oracles:
+            return self.oracles[e.func.id][1]
         if isinstance(e, ast.Call) and isinstance(e.func, ast.Name):
             f = e.func.id
             if f in ("min", "max", "len", "int"):
@@ -420,6 +434,30 @@ class FnTr:
             if bt is not None and not isinstance(bt, str) and bt[0] == "list":
                 return "(← pyIndex %s %s)" % (base, self.expr(e.slice, "num"))
             raise Unsupported("subscript of %r" % (bt,))
+        if isinstance(e, ast.Call) and isinstance(e.func, ast.Attribute) and e.func.attr == "count" and len(e.args) == 1:
+            return "((List.count %s %s : Nat) : Int)" % (self.expr(e.args[0]), self.expr(e.func.value))
+        if isinstance(e, ast.Call) and isinstance(e.func, ast.Name) and e.func.id == "tuple" and len(e.args) == 1 \
+                and isinstance(e.args[0], ast.GeneratorExp):
+            g = e.args[0]
+            if len(g.generators) != 1 or g.generators[0].ifs or not isinstance(g.generators[0].target, ast.Name) \
+                    or g.generators[0].target.id != "_":
+                raise Unsupported("generator expression")
+            it = g.generators[0].iter
+            if not (isinstance(it, ast.Call) and isinstance(it.func, ast.Name) and it.func.id == "range" and len(it.args) == 1):
+                raise Unsupported("generator expression over something else than range(k)")
+            return "(List.replicate (%s).toNat %s)" % (self.expr(it.args[0], "num"), self.expr(g.elt))
+        if isinstance(e, ast.Call) and isinstance(e.func, ast.Name) and e.func.id in self.oracles:
+            params = self.oracles[e.func.id][0]
+            args = [None] * len(params)
+            for i2, a in enumerate(e.args):
+                args[i2] = self.expr(a, "num")
+            for kw in e.keywords:
+                if kw.arg not in params:
+                    raise Unsupported("keyword %s of %s" % (kw.arg, e.func.id))
+                args[params.index(kw.arg)] = self.expr(kw.value, "num")
+            if any(a is None for a in args):
+                raise Unsupported("call of %s with defaulted arguments" % e.func.id)
+            return "(← %s %s)" % (e.func.id, " ".join(args))
         if isinstance(e, ast.Call) and isinstance(e.func, ast.Name):
             f = e.func.id
             if f in ("min", "max") and len(e.args) == 2 and not e.keywords:
@@ -475,7 +513,7 @@ class FnTr:
             if isinstance(x, ast.BinOp) and isinstance(x.op, (ast.FloorDiv, ast.Mod)):
                 return True
             if isinstance(x, ast.Call) and isinstance(x.func, ast.Name) and (
-                    x.func.id == self.pname or x.func.id in self.ctx.fns):
+                    x.func.id == self.pname or x.func.id in self.ctx.fns or x.func.id in self.oracles):
                 return True
             if isinstance(x, ast.Subscript):
                 bt = self.etype(x.value)
@@ -520,7 +558,7 @@ class FnTr:
             return "(%s = none)" % nm if isinstance(op, ast.Is) else "(%s ≠ none)" % nm
         if isinstance(op, (ast.In, ast.NotIn)):
             neg = isinstance(op, ast.NotIn)
-            if isinstance(b, ast.Set):
+            if isinstance(b, (ast.Set, ast.List)):
                 body = "(" + " ∨ ".join("(%s = %s)" % (self.expr(a), self.expr(x)) for x in b.elts) + ")"
             elif isinstance(b, ast.Name) and b.id in self.ctx.enums:
                 body = "True"      # a member of the enumeration by typing
@@ -740,6 +778,33 @@ class FnTr:
                     if isinstance(x, (ast.Yield, ast.YieldFrom)):
                         raise Unsupported("nested generator %s" % st.name)
                 self.local_fns[st.name] = st
+                continue
+            if isinstance(st, ast.Expr) and isinstance(st.value, ast.Call) and isinstance(st.value.func, ast.Attribute) \
+                    and st.value.func.attr == "__init__" and isinstance(st.value.func.value, ast.Call) \
+                    and isinstance(st.value.func.value.func, ast.Name) and st.value.func.value.func.id == "super":
+                # CheckpointSchedule.__init__(self, max_n=None): the translated base constructor
+                if "checkpointSchedule_init" not in self.ctx.fns_lean:
+                    raise Unsupported("super().__init__ without a translated base constructor")
+                call = st.value
+                if call.keywords and not (len(call.keywords) == 1 and call.keywords[0].arg == "max_n" and not call.args):
+                    raise Unsupported("super().__init__ with unexpected keywords")
+                argn = call.args[0] if call.args else (call.keywords[0].value if call.keywords else None)
+                if argn is None:
+                    a = "none"
+                elif self.is_opt(self.etype(argn)):
+                    a = self.expr(argn)
+                else:
+                    a = "(some %s)" % self.expr(argn, "num")
+                tmp = "base_%d" % self.fresh()
+                out.append("%slet %s := (← checkpointSchedule_init %s)" % (ind, tmp, a))
+                for f2, pr in (("n", ".1"), ("r", ".2.1"), ("max_n", ".2.2")):
+                    k = "self." + f2
+                    self.vtypes.setdefault(k, "Int" if f2 != "max_n" else ("opt", "Int"))
+                    if k in defined:
+                        out.append("%s%s := %s%s" % (ind, self.vn(k), tmp, pr))
+                    else:
+                        out.append("%slet mut %s : %s := %s%s" % (ind, self.vn(k), ty_str(self.vtypes[k]), tmp, pr))
+                        defined.add(k)
                 continue
             if isinstance(st, ast.Expr) and isinstance(st.value, ast.Yield):
                 if not self.gen:
@@ -1167,6 +1232,8 @@ class FnTr:
         params = "".join(" (%s : %s)" % (self.vn(p), ty_str(self.ptypes[p])) for p in self.params)
         for f, t in self.self_fields.items():
             params += " (self_%s : %s)" % (f, ty_str(t))
+        for nm, (_, _, lty) in self.oracles.items():
+            params += " (%s : %s)" % (nm, lty)
         if self.gen.get("passes"):
             params += " (passes : Int)"
         if self.gen.get("online"):
@@ -1309,6 +1376,20 @@ METHODS = [
      {"binomial_storage": ST}, []),
     ("hrevolve.py", "RevolveCheckpointSchedule.uses_storage_type", "revolve_uses", {"storage_type": ST},
      {"snapshots_in_ram": "Int", "snapshots_on_disk": ("opt", "Int")}, []),
+    ("mixed.py", "MixedCheckpointSchedule.__init__", "mixed_init", {"storage": ST}, {},
+     ["n", "r", "max_n", "exhausted", "snapshots", "storage"]),
+    ("twolevel_binomial.py", "TwoLevelCheckpointSchedule.__init__", "twoLevel_init",
+     {"binomial_storage": ST, "binomial_trajectory": "String"}, {},
+     ["n", "r", "max_n", "period", "binomial_snapshots", "binomial_storage", "trajectory"]),
+    ("multistage.py", "MultistageCheckpointSchedule.__init__", "multistage_init", {"trajectory": "String"}, {},
+     ["n", "r", "max_n", "snapshots_in_ram", "snapshots_on_disk", "storage", "exhausted", "trajectory"],
+     {"allocate_snapshots": (["max_n", "snapshots_in_ram", "snapshots_on_disk", "trajectory"],
+                             ("tuple", [("list", "Int"), ("list", ST)]),
+                             "Int → Int → Int → String → M (List Int × List StorageType)")}),
+    ("schedule.py", "Forward.__len__", "forward_len", {}, {"n0": "Int", "n1": "Int"}, []),
+    ("schedule.py", "Forward.__contains__", "forward_contains", {}, {"n0": "Int", "n1": "Int"}, []),
+    ("schedule.py", "Reverse.__len__", "reverse_len", {}, {"n0": "Int", "n1": "Int"}, []),
+    ("schedule.py", "Reverse.__contains__", "reverse_contains", {}, {"n0": "Int", "n1": "Int"}, []),
 ]
 
 F_BASE = {"n": "Int", "r": "Int", "max_n": ("opt", "Int")}
@@ -1425,18 +1506,18 @@ def generate(repo):
             status[lean] = "untranslatable: %s: %s" % (type(e).__name__, e)
     if "StorageType" in enums:
         chunks.insert(len(enums), ACTION_TEXT)
-        for f, qual, lean, ptypes, fields, mfields in METHODS:
+        for entry in METHODS:
+            f, qual, lean, ptypes, fields, mfields = entry[:6]
+            orc = entry[6] if len(entry) > 6 else None
             try:
                 node = find_def(tree(f), qual)
                 if node.decorator_list:
                     raise Unsupported("decorated method")
-                for a2, d2 in zip(node.args.args[::-1], node.args.defaults[::-1]):
-                    if not (isinstance(d2, ast.Constant) and d2.value is None):
-                        raise Unsupported("default argument")
-                tr = FnTr(ctx, node, qual, lean, ptypes, False, self_fields=fields, method_fields=mfields,
+                tr = FnTr(ctx, node, qual, lean, ptypes, False, self_fields=fields, method_fields=mfields, oracles=orc,
                           src="%s:%d-%d" % (f, node.lineno, node.end_lineno))
                 text, fuel = tr.emit()
                 chunks.append(text)
+                ctx.fns_lean.add(lean)
                 status[lean] = "ok"
             except (Unsupported, SyntaxError, OSError, KeyError, IndexError, TypeError, AttributeError) as e:
                 status[lean] = "untranslatable: %s: %s" % (type(e).__name__, e)
